@@ -123,6 +123,9 @@ const CUMUL_DAY_IN_MONTHS_NORMAL_YEAR: [i64; 12] =
 #[allow(unreachable_pub, missing_docs)]
 pub mod verif {
     use super::rule::TransitionRule;
+    pub use super::rule::verif_rule::{
+        days_since_unix_epoch, rule_day_date, rule_day_unix_time, utc_fields,
+    };
     use super::timezone::{LocalTimeType, TimeZone, Transition};
     use crate::{MappedLocalTime, NaiveDateTime};
 
